@@ -567,13 +567,17 @@ def sentinel (r : Record) : Record :=
     claims := none, requestState := false, responseState := false, requestBytes := false, responseBytes := false
     stats := false }
 
+/-- the candidate after stage 1 (only a record that carries `request_data` changes) -/
+def stage1 (r : Record) : Record := if r.requestData then shedRequestData r else r
+
+/-- the candidate after stage 2 (only a record that carries `claims` changes) -/
+def stage2 (r : Record) : Record := if (stage1 r).claims.isSome then shedClaims (stage1 r) else stage1 r
+
 /-- `VgiAccessLogFormatter.format`; `fits x` = `_encoded_len(x) <= max_record_bytes` (any function) -/
 def format (fits : Record → Bool) (r : Record) : Record :=
-  if fits r then r else
-  let r1 := if r.requestData then shedRequestData r else r
-  if r.requestData && fits r1 then r1 else
-  let r2 := if r1.claims.isSome then shedClaims r1 else r1
-  if r1.claims.isSome && fits r2 then r2 else
-  sentinel r2
+  if fits r then r
+  else if r.requestData && fits (stage1 r) then stage1 r
+  else if (stage1 r).claims.isSome && fits (stage2 r) then stage2 r
+  else sentinel (stage2 r)
 
 end VgiVerif.C34
